@@ -623,6 +623,8 @@ func exec(t []string) string {
 		return r
 	case "rgflow":
 		return execReorg(t[1] == "1")
+	case "svflow":
+		return execSave(t[1] == "1")
 	case "x.reset":
 		xReset(atoi(t[1]), t[2] == "1")
 		return "ok"
@@ -831,6 +833,10 @@ func oracle(t []string, out string) *hx.Violation {
 		if atoi(field(out, "ntx")) > U.max+1 {
 			return bad("utxo-txcache-over-limit", fmt.Sprintf("%s transactions cached, limit %d", field(out, "ntx"), U.max+1))
 		}
+	case "svflow":
+		if field(out, "fetch") != svExpect {
+			return bad("txcache-stale", "after SaveBlock answered "+field(out, "saved")+", GetTransaction of a transaction of that block says "+field(out, "fetch")+" but a cache-less index on the same database says "+svExpect)
+		}
 	case "rgflow":
 		if field(out, "after") != rgExpectAfter {
 			return bad("utxo-cache-stale", "after the node reorganised, GetTxReference answers "+field(out, "after")+" but the store lookup says "+rgExpectAfter)
@@ -881,7 +887,7 @@ func oracle(t []string, out string) *hx.Violation {
 
 func nontrivial(t []string, out string) bool {
 	return strings.Contains(out, "hit") || (strings.HasPrefix(t[0], "u.") && strings.HasPrefix(out, "ok ")) ||
-		strings.HasPrefix(t[0], "b.get") || t[0] == "rgflow" || strings.HasPrefix(t[0], "s.write")
+		strings.HasPrefix(t[0], "b.get") || t[0] == "rgflow" || t[0] == "svflow" || strings.HasPrefix(t[0], "s.write")
 }
 
 func bucket(t []string, out string) string {
